@@ -31,7 +31,7 @@ ASSUMPTIONS = ["UB on inputs that were not generated stays invisible; under Miri
                "unsafe-site execution counts use the resolver model to predict which mode a configuration runs"]
 
 PROFILE = S.profile(renames=0.3, dups=0.05, attrs=0.05, sizes=[("small", 80), ("medium", 10), ("large", 7), ("full8", 3)],
-                    anchors=["min", "max", "zero", "neg", "rand"])
+                    anchors=["min", "max", "zero", "neg", "rand", "narrow_max", "narrow_min"])
 MIRI_PROFILE = S.profile(renames=0.3, dups=0.05, attrs=0.0, sizes=[("small", 100)], cfg_off=0.0,
                          anchors=["min", "max", "zero", "neg", "rand"], shapes=["gapless", "holes", "holes", "many"])
 
